@@ -393,6 +393,51 @@ static void components_case(Result &r, bool same_step, long nsteps)
   delete px;
 }
 
+// "script-driven actions have the same effect as the equivalent configuration-file path": a variable whose component
+// coefficient (and exponent) is changed with "cv colvar <name> modifycvcs" against a twin defined with that coefficient
+// in the configuration, on the same atoms, each with its own restraint and total-force calculation.
+static void modifycvcs_case(Result &r, bool same_step, long nsteps)
+{
+  Scn sc; sc.id = "E"; sc.natoms = 6;
+  vproxy *px = new_px(sc, same_step);
+  auto cvdef = [](std::string const &name, std::string const &coeff) {
+    return "colvar {\n name " + name + "\n outputTotalForce on\n distance {\n componentCoeff " + coeff + "\n group1 { atomNumbers 1 2 }\n group2 { atomNumbers 3 }\n }\n}\n";
+  };
+  std::string conf = cvdef("t", "2.0") + cvdef("u", "1.0") +
+                     "harmonic {\n name ht\n colvars t\n centers 0.5\n forceConstant 2.0\n}\nharmonic {\n name hu\n colvars u\n centers 0.5\n forceConstant 2.0\n}\n";
+  if (px->config(conf) != 0) { fprintf(stderr, "library refused the modifycvcs scenario: %s\n", px->errtxt.c_str()); _exit(3); }
+  for (const char *n : {"t", "u"}) if (cvs(*px, W({"cv", "colvar", n, "set", "collect_gradient", "1"})).rc != 0) { fprintf(stderr, "HARNESS-ERROR: collect_gradient\n"); _exit(2); }
+  auto bad = [&](long st, std::string const &what, std::string const &got, std::string const &want) {
+    r.violation("C20:agree:modifycvcs-differs-from-the-same-coefficient-in-the-configuration:" + what,
+                "{\"part\":2,\"scenario\":\"E\",\"total_forces_same_step\":" + std::string(same_step ? "true" : "false") + ",\"after_engine_step\":" + std::to_string(st) +
+                ",\"variable_changed_by_script\":\"" + jesc(got.substr(0, 300)) + "\",\"variable_defined_in_configuration\":\"" + jesc(want.substr(0, 300)) + "\"}");
+  };
+  for (long s = 0; s < nsteps; s++) {
+    if (s == 1) {
+      SR f = cvs(*px, W({"cv", "colvar", "u", "modifycvcs", "\"componentCoeff 2.0\""}));
+      r.count("transitions");
+      if (f.rc != 0) { bad(s, "modifycvcs-refused", f.out + f.msgs, ""); break; }
+    }
+    place(*px, s);
+    for (int a = 0; a < 6; a++) px->fsys[a] = cvm::rvector(0.3 * (a + 1) - 0.2 * s, -0.1 * a, 0.05 * s * (a % 2));
+    if (px->step(s) != 0) { bad(s, "step-fails", px->errtxt, ""); break; }
+    r.count("transitions");
+    if (s < 2) continue;   // (with total forces one step late, the force measured at step 1 still belongs to the old coefficient)
+    for (const char *q : {"value", "getappliedforce", "gettotalforce", "getgradients"}) {
+      r.count("evaluations"); r.count("p2_comparisons");
+      r.seen("nontrivial", "p2:E:" + std::to_string(same_step) + ":" + std::to_string(s) + ":" + q);
+      SR a = cvs(*px, W({"cv", "colvar", "u", q})), b = cvs(*px, W({"cv", "colvar", "t", q}));
+      std::vector<double> ga, gb;
+      if (a.rc != 0 || b.rc != 0 || !parse_nums(a.out, ga) || !parse_nums(b.out, gb) || ga.size() != gb.size()) { bad(s, std::string(q) + ":shape", a.out + a.msgs, b.out + b.msgs); break; }
+      bool same = true;
+      for (size_t i = 0; i < ga.size(); i++) if (!eq_at(ga[i], gb[i], 15, 1e-11)) same = false;
+      if (!same) { bad(s, q, a.out, b.out); break; }
+    }
+    r.seen("states", "E" + std::to_string(same_step) + std::to_string(s));
+  }
+  delete px;
+}
+
 void part2(std::vector<Scn> const &scs, Args const &args, Result &total)
 {
   // (scenario, timing convention, variant): variant 0 plain run, 1 resumed from the donor state, 2 step counter beyond 2^31
@@ -400,6 +445,8 @@ void part2(std::vector<Scn> const &scs, Args const &args, Result &total)
   std::vector<Job> jobs;
   for (int si = 0; si < (int) scs.size(); si++) for (int same = 0; same < 2; same++) for (int var = 0; var < 3; var++) jobs.push_back({si, same != 0, var});
   jobs.push_back({-1, true, 0});   // two-component variable with cvcflags (own scenario D)
+  jobs.push_back({-2, false, 0});  // modifycvcs against the same coefficient in the configuration (own scenario E)
+  jobs.push_back({-2, true, 0});
   jobs.push_back({-1, false, 0});
   long nsteps = args.thorough() ? 8 : 5;
   std::string scratch = args.kv.count("scratch") ? args.kv.at("scratch") : ".";
@@ -410,6 +457,7 @@ void part2(std::vector<Scn> const &scs, Args const &args, Result &total)
     for (size_t j = shard; j < jobs.size(); j += nsh) {
       run_cases_forked(j, j + 1, [&](size_t ji, Result &rr) {
         Job const &jb = jobs[ji];
+        if (jb.si == -2) { modifycvcs_case(rr, jb.same, std::max<long>(nsteps, 6)); return; }
         if (jb.si < 0) { components_case(rr, jb.same, std::max<long>(nsteps, 6)); return; }
         Scn const &sc = scs[jb.si];
         vproxy *px = new_px(sc, jb.same);
@@ -440,7 +488,7 @@ void part2(std::vector<Scn> const &scs, Args const &args, Result &total)
         }
         delete px;
       }, [&](size_t ji, std::string const &kind, std::string const &tail) {
-        r.violation("C20:crash:query-battery:" + kind, "{\"part\":2,\"scenario\":\"" + (jobs[ji].si < 0 ? std::string("D") : scs[jobs[ji].si].id) + "\",\"death\":\"" + jesc(kind) + "\",\"report\":\"" + jesc(tail) + "\"}");
+        r.violation("C20:crash:query-battery:" + kind, "{\"part\":2,\"scenario\":\"" + (jobs[ji].si == -2 ? std::string("E") : (jobs[ji].si < 0 ? std::string("D") : scs[jobs[ji].si].id)) + "\",\"death\":\"" + jesc(kind) + "\",\"report\":\"" + jesc(tail) + "\"}");
       }, r);
     }
   }, total, 1800);
